@@ -586,6 +586,7 @@ func (gb *gcpBalancer) refresh(ref *subConnRef) {
 	)
 	if err != nil {
 		gb.log.Errorf("failed to create a replacement SubConn with NewSubConn: %v", err)
+		ref.refreshing = false
 		return
 	}
 	gb.refreshingScRefs[sc] = ref
